@@ -74,13 +74,20 @@ ParsedItems ==
 ParsedBodies ==
     [b \in 0..MaxId |-> CASE b = 0 -> <<1, 2>> [] b = 2 -> <<3>> [] OTHER -> <<>>]
 
+\* Two more loaded files with the same abstract content in other layouts:
+\*   "oneline":   a = 1 / t "x" { b = 2 }      (the block is written on one line)
+\*   "emptyblk":  a = 1 / t "x" {}             (an empty block on one line; no item 3)
+EmptyBlkItems == [ParsedItems EXCEPT ![3] = NoItem]
+EmptyBlkBodies == [ParsedBodies EXCEPT ![2] = <<>>]
+LoadedInits == {"parsed", "oneline", "emptyblk"}
+ItemsOf(i) == IF i = "emptyblk" THEN EmptyBlkItems ELSE IF i \in LoadedInits THEN ParsedItems ELSE [j \in 1..MaxId |-> NoItem]
+BodiesOf(i) == IF i = "emptyblk" THEN EmptyBlkBodies ELSE IF i \in LoadedInits THEN ParsedBodies ELSE [b \in 0..MaxId |-> <<>>]
+
 Init ==
     /\ init \in Inits
     /\ hist = <<>>
     /\ nextId = NInit + 1
-    /\ IF init = "parsed"
-         THEN item = ParsedItems /\ body = ParsedBodies
-         ELSE item = [i \in 1..MaxId |-> NoItem] /\ body = [b \in 0..MaxId |-> <<>>]
+    /\ item = ItemsOf(init) /\ body = BodiesOf(init)
 
 ---------------------------------------------------------------------------
 (* Helpers *)
@@ -209,6 +216,24 @@ SetLabels(h, ls) ==
     /\ item' = [item EXCEPT ![h] = [@ EXCEPT !.labels = ls, !.orig = FALSE]]
     /\ UNCHANGED <<body, nextId, init>>
 
+\* Body.Clear: every item of the body goes; attributes cease to exist, blocks become detached
+\* (the client may still hold their handles and append them again)
+Clear(b) ==
+    /\ ValidBody(b)
+    /\ Record(Op("Clear", b, "", "", NoVal, <<>>, 0))
+    /\ item' = [i \in 1..MaxId |->
+                   IF item[i].parent = b /\ item[i].k = "attr" /\ (\E j \in 1..Len(body[b]) : body[b][j] = i) THEN NoItem
+                   ELSE IF item[i].parent = b /\ item[i].k = "block" THEN [item[i] EXCEPT !.parent = -1]
+                   ELSE item[i]]
+    /\ body' = [body EXCEPT ![b] = <<>>]
+    /\ UNCHANGED <<nextId, init>>
+
+\* Body.AppendNewline / Body.AppendUnstructuredTokens(a comment line): layout only, no item changes
+Decorate(b, kind) ==
+    /\ ValidBody(b)
+    /\ Record(Op("Decorate", b, kind, "", NoVal, <<>>, 0))
+    /\ UNCHANGED <<item, body, nextId, init>>
+
 Next ==
     /\ Len(hist) < MaxH
     /\ \/ \E b \in 0..MaxId, n \in Names, v \in Vals : SetAttr(b, n, v)
@@ -220,6 +245,8 @@ Next ==
        \/ \E b \in 0..MaxId, h \in 1..MaxId : RemoveBlock(b, h)
        \/ \E h \in 1..MaxId, t \in Types : SetType(h, t)
        \/ \E h \in 1..MaxId, ls \in LabelSets : SetLabels(h, ls)
+       \/ \E b \in 0..MaxId : Clear(b)
+       \/ \E b \in 0..MaxId, kind \in {"newline", "comment"} : Decorate(b, kind)
 
 Spec == Init /\ [][Next]_vars
 
@@ -254,7 +281,8 @@ UntouchedKeepTokens ==
           (item[i].orig /\ ~item'[i].orig) =>
               LET o == hist'[Len(hist')] IN
                  \/ (o.op \in {"SetType", "SetLabels"} /\ o.h = i)
-                 \/ (o.op \in {"SetAttr", "RemoveAttr", "RenameAttr"} /\ o.b = item[i].parent /\ o.name = item[i].name)]_vars
+                 \/ (o.op \in {"SetAttr", "RemoveAttr", "RenameAttr"} /\ o.b = item[i].parent /\ o.name = item[i].name)
+                 \/ (o.op = "Clear" /\ o.b = item[i].parent)]_vars
 
 TypeOK ==
     /\ nextId \in (NInit+1)..(MaxId+1)
